@@ -5,9 +5,15 @@ package db
 import (
 	"context"
 	"fmt"
+	"io"
+
+	grpclib "google.golang.org/grpc"
+	"google.golang.org/protobuf/encoding/protojson"
 
 	"github.com/apache/skywalking-banyandb/api/common"
 	propertyv1 "github.com/apache/skywalking-banyandb/api/proto/banyandb/property/v1"
+	"github.com/apache/skywalking-banyandb/banyand/observability"
+	"github.com/apache/skywalking-banyandb/pkg/logger"
 )
 
 // C18 wrappers: thin access to the unexported replica-level step functions used by the gossip repair.
@@ -66,4 +72,102 @@ func VerifC18Repair(ctx context.Context, d Database, group string, shardID uint3
 		newer = &VerifC18Doc{ID: string(n.id), Source: n.source, Timestamp: n.timestamp, DeleteTime: n.deleteTime}
 	}
 	return u, newer, nil
+}
+
+// verifC18Stream is the server side of the gossip Repair stream with the transport removed: what the server Sends is
+// queued for the initiator.
+type verifC18Stream struct {
+	grpclib.ServerStream
+	ctx  context.Context
+	sent []*propertyv1.RepairResponse
+}
+
+func (s *verifC18Stream) Context() context.Context { return s.ctx }
+
+func (s *verifC18Stream) Send(r *propertyv1.RepairResponse) error {
+	s.sent = append(s.sent, r)
+	return nil
+}
+
+func (s *verifC18Stream) Recv() (*propertyv1.RepairRequest, error) { return nil, io.EOF }
+
+var verifC18Sched = &repairScheduler{
+	l:       logger.GetLogger("c18-gossip"),
+	metrics: newRepairSchedulerMetrics(observability.BypassRegistry.With(observability.RootScope.SubScope("c18_gossip"))),
+}
+
+// VerifC18GossipSession runs the per-property part of one gossip repair session between an initiator (gossip client)
+// and a contacted replica (gossip server) for one entity, without the Merkle tree walk and without the transport:
+//
+//	initiator: repairGossipBase.queryProperty (as queryPropertyAndSendToServer) -> PropertySync, or PropertyMissing
+//	           when it has no copy (as sendPropertyMissing)
+//	server:    the REAL repairGossipServer.processPropertySync / processPropertyMissing; whatever they Send is queued
+//	initiator: for every queued PropertySync the statements of repairGossipClient.Rev's PropertySync case:
+//	           executeRepairWithBudget; if refused with an own newer copy and From != MISSING, send that copy to the
+//	           server (processPropertySync again)
+//
+// As the tree comparison would, the session is skipped when both sides' newest documents are identical. rounds is the
+// number of server calls; the session is cut (cut=true) after 8, which the protocol never needs.
+func VerifC18GossipSession(ctx context.Context, initiator, server Database, group string, shardID uint32, name, eid string,
+) (rounds int, trace []string, cut bool, err error) {
+	is, err := verifC18Shard(ctx, initiator, group, shardID)
+	if err != nil {
+		return 0, nil, false, err
+	}
+	ss, err := verifC18Shard(ctx, server, group, shardID)
+	if err != nil {
+		return 0, nil, false, err
+	}
+	srv := newRepairGossipServer(verifC18Sched)
+	cli := &repairGossipBase{scheduler: verifC18Sched}
+	st := &verifC18Stream{ctx: ctx}
+	leaf := is.repairState.buildLeafNodeEntity(group, name, eid)
+	iq, ip, err := cli.queryProperty(ctx, is, leaf)
+	if err != nil {
+		return 0, nil, false, err
+	}
+	sq, _, err := cli.queryProperty(ctx, ss, leaf)
+	if err != nil {
+		return 0, nil, false, err
+	}
+	switch {
+	case iq == nil && sq == nil:
+		return 0, []string{"both-empty"}, false, nil
+	case iq != nil && sq != nil && iq.timestamp == sq.timestamp && iq.deleteTime == sq.deleteTime && string(iq.source) == string(sq.source):
+		return 0, []string{"identical-leaf"}, false, nil
+	case iq == nil:
+		trace = append(trace, "missing")
+		srv.processPropertyMissing(ctx, ss, &propertyv1.PropertyMissing{Entity: leaf}, st)
+		rounds++
+	default:
+		trace = append(trace, "sync")
+		srv.processPropertySync(ctx, ss, &propertyv1.PropertySync{Id: GetPropertyID(ip), Property: ip, DeleteTime: iq.deleteTime}, st, group)
+		rounds++
+	}
+	for len(st.sent) > 0 {
+		resp := st.sent[0]
+		st.sent = st.sent[1:]
+		sync := resp.GetPropertySync()
+		if sync == nil {
+			return rounds, trace, false, fmt.Errorf("unexpected server message %T", resp.Data)
+		}
+		updated, newer, rerr := cli.executeRepairWithBudget(ctx, is, sync.Property.Id, sync.Property.Property, sync.Property.DeleteTime, group)
+		if rerr != nil {
+			return rounds, trace, false, rerr
+		}
+		trace = append(trace, fmt.Sprintf("reply:from=%s,initiator-updated=%v", sync.From, updated))
+		if !updated && newer != nil && sync.From != propertyv1.PropertySyncFromType_PROPERTY_SYNC_FROM_TYPE_MISSING {
+			if rounds >= 8 {
+				return rounds, trace, true, nil
+			}
+			var p propertyv1.Property
+			if uerr := protojson.Unmarshal(newer.source, &p); uerr != nil {
+				return rounds, trace, false, uerr
+			}
+			trace = append(trace, "initiator-sends-own-newer")
+			srv.processPropertySync(ctx, ss, &propertyv1.PropertySync{Id: newer.id, Property: &p, DeleteTime: newer.deleteTime}, st, group)
+			rounds++
+		}
+	}
+	return rounds, trace, false, nil
 }
